@@ -220,6 +220,8 @@ def run_impl(p):
                     x = _derive(RaggedArray(other.copy(), list(p["other"])), p.get("derived"))
                 else:
                     x = other
+                    if k == "npscalar" and p["vseed"] % 3 == 0:
+                        x = np.array(other)          # the same typed scalar as a 0-d array
                 if p.get("inplace"):
                     try:
                         res = uf(ra, x, out=ra)
@@ -234,7 +236,9 @@ def run_impl(p):
         o = {"k": "obs", "result": canon(res), "lengths": canon([int(v) for v in res.lengths])}
         same_a = bool(p.get("inplace")) or bool(np.array_equal(ra.ravel().view(np.uint8), a.view(np.uint8)))
         same_x = True
-        if isinstance(x, np.ndarray):
+        if isinstance(x, np.ndarray) and x.ndim == 0:
+            same_x = bool(x.tobytes() == np.asarray(other).tobytes())
+        elif isinstance(x, np.ndarray):
             same_x = bool(np.array_equal(x.ravel().view(np.uint8), other.view(np.uint8)))
         elif isinstance(x, RaggedArray):
             same_x = bool(np.array_equal(x.ravel().view(np.uint8), other.view(np.uint8)))
